@@ -14,6 +14,24 @@ CHECKS = {
         note="trusts cattrs generic list/dict/tuple/optional machinery and primitive coercion (exercised concretely), CrossHair and z3; 14 root alias objects with ForwardRefs are recorded known findings",
         ref="§3.3 §3.4 §3.5 §4 C01",
     ),
+    "C02": dict(
+        technique="z3 encoding of the cattrs-generated unstructure code of every class + finite z3 relation query (attribute/validator/default per property) + CrossHair symbolic execution of constructor+unstructure per validator kind",
+        text="For all set/unset combinations of every class at once z3 shows each emitted key is the metamodel name of the attribute it is read from and is omitted iff unset, optional and not special; CrossHair shows the real constructors accept and the generated unstructure functions return unchanged every str (bounded length), bool, float and in-range int, the attribute drawn by symbolic index. Constructor-built samples of all root types (with re-parse fixpoint) validate the composition concretely.",
+        note="the class chosen at union-typed attributes is the caller's; cattrs _unstructure_union and container unstructuring are trusted and exercised concretely",
+        ref="§4 C02",
+    ),
+    "C04": dict(
+        technique="exhaustive z3 relation comparison lsp.json vs live module (definitions, attributes, requiredness, defaults, annotations, validators) + CrossHair symbolic execution of the generator's decision functions and of every string-literal field",
+        text="Instance layer is finite and exhaustive in both directions (z3 as decision procedure). Rule layer: the python plugin's _is_special_field/_has_null_base_type/_generate_field_validator/_generate_type_name/_generate_properties are run on a symbolic property (9 shapes x 8 bases x 3 operands x optional tri-state). Behavioural clause: every literal field accepts exactly its literal for a symbolic string at both entry points.",
+        note="annotations are compared as typing objects (==) against an independent implementation of the documented mapping; text of types.py is not compared (C05 is n/a)",
+        ref="§4 C04",
+    ),
+    "C09": dict(
+        technique="exhaustive z3 relation comparison of the method catalogue / registry with lsp.json + CrossHair lemma on message_direction",
+        text="Finite and exhaustive: 95 methods x 7 facts and all module definitions x registry membership/identity, both directions, decided by z3 queries for a differing index; message_direction on a symbolic string outside the methods must raise KeyError.",
+        note="the solver adds no power over a loop here (finite domain) - it is the uniform decision procedure and produces the counterexample",
+        ref="§4 C09",
+    ),
     "C03": dict(
         technique="symbolic execution of the real union hooks (CrossHair/z3) with a typing oracle + exhaustive z3 queries over the attrs field table",
         text="Bounded solver verdict that no handler returns uninterpreted JSON or a class for which the input is not valid, for every value of every alternative within the bounds; finite z3 queries show all annotations are resolved and generated functions use the dispatched handlers.",
